@@ -224,8 +224,9 @@ class Shapes:
 
 
 class FormulaBuilder:
-    def __init__(self, shapes: Shapes):
+    def __init__(self, shapes: Shapes, ctx: Optional[Ctx] = None):
         self.sh = shapes
+        self.ctx = ctx
         self.atoms: List[Term] = []
         self.problems: List[str] = []
 
@@ -251,6 +252,10 @@ class FormulaBuilder:
                 k = 'forall' if q == EnumMember('QuantifierType', 'ALL') else 'exists' if q == EnumMember('QuantifierType', 'SOME') else None
                 if k:
                     return (k, canon(t.get('variable')), canon(t.get('domain')), self.build(t.get('condition')))
+            if t.cls == 'HplBinaryOperator' and self.ctx is not None:
+                dd = _is_len_eq_zero(self.ctx, t)
+                if dd is not None:
+                    return ('empty', canon(dd))   # the empty-domain guard, spelled out
             self.problems.append(f'unrecognised constructor term {str(t)[:80]}')
             return self.atom(t)
         fn = _fname(t)
@@ -266,6 +271,10 @@ class FormulaBuilder:
             return self.build(t.args[0])
         if fn == 'empty_test' and len(t.args) == 1:
             return ('empty', canon(t.args[0]))
+        if isinstance(t, New) and t.cls == 'HplBinaryOperator' and self.ctx is not None:
+            dd = _is_len_eq_zero(self.ctx, t)
+            if dd is not None:
+                return ('empty', canon(dd))   # the empty-domain guard, spelled out
         if fn == 'true':
             return ('true',)
         if fn == 'false':
@@ -444,7 +453,14 @@ def rewrite_eval(ctx: Ctx) -> Evaluator:
                 # the units the rules analyse one by one stay calls; a helper carved out of one of them is looked through
                 if fi.name in REWRITE_UNITS or recursive(fi.name):
                     return False
-            return default_inline(fi, depth)
+            if default_inline(fi, depth):
+                return True
+            # a small private helper that scans a (constant) rule table is looked through as well
+            if fi.module.name == 'hpl.rewrite' and fi.cls is None and fi.name.startswith('_') and depth <= 3 and not recursive(fi.name) \
+                    and not any(isinstance(x, (ast.While, ast.With, ast.Try, ast.Yield, ast.YieldFrom)) for x in ast.walk(fi.node)) \
+                    and sum(1 for x in ast.walk(fi.node) if isinstance(x, ast.stmt)) <= 12:
+                return True
+            return False
         return Evaluator(ctx.model, inline=pol)
     return ctx.memo('rewrite_eval', build)
 
@@ -459,16 +475,39 @@ def _input_formula(fi_name: str, param: Term, sh: Shapes):
         sh.kind.setdefault(canon(param), 'quant')
 
 
+def _is_len_eq_zero(ctx: Ctx, v: Term) -> Optional[Term]:
+    """d when v is the node `len(d) = 0` (operator / function given by token, name or built-in enum member)"""
+    if not (isinstance(v, New) and v.cls == 'HplBinaryOperator'):
+        return None
+    from .rules_tables import binary_rows, function_rows
+    op = v.get('operator')
+    tok = op.value if isinstance(op, Const) else binary_rows(ctx).get(op.name, {}).get('token') if isinstance(op, EnumMember) and op.cls == 'BuiltinBinaryOperator' else None
+    a, b = v.get('operand1'), v.get('operand2')
+    if tok != '=' or not (isinstance(a, New) and a.cls == 'HplFunctionCall' and isinstance(b, New) and b.cls == 'HplLiteral' and b.get('value') == Const(0)):
+        return None
+    fn = a.get('function')
+    fname = fn.value if isinstance(fn, Const) else function_rows(ctx).get(fn.name, {}).get('name') if isinstance(fn, EnumMember) and fn.cls == 'BuiltinFunction' else None
+    args = a.get('arguments')
+    if fname == 'len' and isinstance(args, TupleT) and len(args.items) == 1:
+        return args.items[0]
+    return None
+
+
 def _empty_test_body(ctx: Ctx, r: RuleResult, ev: Evaluator):
     """the empty-domain guard itself: len(domain) = 0, unconditionally"""
-    et = ctx.model.func('hpl.rewrite', 'empty_test', r.rule)
+    rw = ctx.model.module('hpl.rewrite', r.rule)
+    et = rw.functions.get('empty_test')
+    if et is None:
+        res = ctx.model.resolve_name(rw, 'empty_test')   # defined elsewhere in the package and imported
+        if res and res[0] == 'func':
+            et = res[1]
+    if et is None:
+        raise AnalysisError(r.rule, 'empty_test not found in (or imported into) hpl.rewrite (anchor vanished)')
     d = Sym('expr', 'HplExpression')
     eo = ev.run(et, {et.params()[0]: d})
     ok = False
-    if len(eo) == 1 and eo[0].kind == 'return' and not eo[0].guards and isinstance(eo[0].value, New) and eo[0].value.cls == 'HplBinaryOperator':
-        v = eo[0].value
-        a, b = v.get('operand1'), v.get('operand2')
-        ok = v.get('operator') == Const('=') and isinstance(a, New) and a.cls == 'HplFunctionCall' and a.get('function') == Const('len') and a.get('arguments') == TupleT((d,)) and isinstance(b, New) and b.cls == 'HplLiteral' and b.get('value') == Const(0)
+    if len(eo) == 1 and eo[0].kind == 'return' and not eo[0].guards:
+        ok = _is_len_eq_zero(ctx, eo[0].value) == d
     (r.ok('empty_test(d) = (len(d) = 0) for every domain') if ok else r.fail('empty_test', f'the empty-domain guard is not unconditionally "len(domain) = 0": {[str(o)[:120] for o in eo]} (literal ranges can be empty)', et.where))
 
 
@@ -499,7 +538,7 @@ def R1(ctx: Ctx) -> RuleResult:
                 sh.read(a, True)
             _input_formula(name, param, sh)
             # a quantifier of unknown kind stays an atom on both sides
-            fb = FormulaBuilder(sh)
+            fb = FormulaBuilder(sh, ctx)
             if sh.kind.get(canon(param)) == 'quant':
                 sh.kind.pop(canon(param))
             fin = fb.build(param)
@@ -568,7 +607,7 @@ def R2(ctx: Ctx) -> RuleResult:
                 sh.read(a, True)
             _input_formula(name, param, sh)
             for g, leaf in alternatives(o.value):
-                fb = FormulaBuilder(sh)
+                fb = FormulaBuilder(sh, ctx)
                 if sh.kind.get(canon(param)) == 'quant':
                     sh.kind.pop(canon(param))
                 fin = fb.build(param)
